@@ -232,11 +232,29 @@ def _specialise(prog, f, fmt):
                     continue
                 raise VNUnknown("condition %s" % dump(t)[:40])
             if isinstance(st, ast.Return):
-                return vn.expr(st.value)
+                return vn.expr(fold(st.value))
             if isinstance(st, ast.Raise):
                 return None
+            if isinstance(st, ast.Assign):
+                st = ast.copy_location(ast.Assign(targets=st.targets, value=fold(st.value)), st)
             vn.stmt(st)
         return None
+
+    def fold(e):
+        """`A if format == "<literal>" else B` (the model's reading of `if format == ...: return A` + `return B`) with the format fixed"""
+        import copy
+
+        class F(ast.NodeTransformer):
+            def visit_IfExp(self, n):
+                self.generic_visit(n)
+                t = n.test
+                if isinstance(t, ast.Compare) and len(t.ops) == 1 and isinstance(t.ops[0], (ast.Eq, ast.NotEq)) and dump(t.left) == "format" and isinstance(t.comparators[0], ast.Constant):
+                    same = (t.comparators[0].value == fmt)
+                    if isinstance(t.ops[0], ast.NotEq):
+                        same = not same
+                    return n.body if same else n.orelse
+                return n
+        return F().visit(copy.deepcopy(e))
 
     return run(body_nodoc(f.node))
 
